@@ -234,6 +234,17 @@ where
     ///
     /// assert_eq!(qwt.len(), 8);
     /// ```
+    /// Checks if `symbol` has a code, i.e., if it occurs in the indexed sequence
+    /// (compressed tree only). A symbol that does not fit in a `usize` cannot occur
+    /// and must not be confused with its truncation.
+    #[inline(always)]
+    fn has_code(&self, symbol: T) -> bool {
+        let index: usize = symbol.as_();
+        let back: T = index.as_();
+        let codes = self.codes_encode.as_ref().unwrap();
+        back == symbol && index < codes.len() && codes[index].len != 0
+    }
+
     /// The bit that decides the branch taken at `level`: a bit of the symbol itself for the
     /// plain tree (symbols may be wider than 32 bits), a bit of its code `repr` otherwise.
     #[inline(always)]
@@ -390,10 +401,7 @@ where
             return None;
         }
 
-        if COMPRESSED
-            && (symbol.as_() >= self.codes_encode.as_ref().unwrap().len()
-                || self.codes_encode.as_ref().unwrap()[symbol.as_() as usize].len == 0)
-        {
+        if COMPRESSED && !self.has_code(symbol) {
             return None;
         }
 
@@ -450,10 +458,7 @@ where
             return None;
         }
 
-        if COMPRESSED
-            && (symbol.as_() >= self.codes_encode.as_ref().unwrap().len()
-                || self.codes_encode.as_ref().unwrap()[symbol.as_() as usize].len == 0)
-        {
+        if COMPRESSED && !self.has_code(symbol) {
             return None;
         }
 
